@@ -8,8 +8,14 @@ import OpcuaModel.Gen.Policies
   `Gen.setMaximumBodySize` is the machine translation of
   `channelInstance.SetMaximumBodySize`, `Gen.symmetricRows` the parameter table
   the policy constructors compute, `secureLen` the hand model of
-  `signAndEncrypt` (tied by the C38 correspondence run).  All theorems are for
-  every chunk size ≥ 8192 (unbounded) and every row of the table.
+  `signAndEncrypt` (tied by the C38 correspondence run).
+
+  The theorems are stated for EVERY parameter row satisfying the decidable
+  side condition `RowOk` (a 16-byte block cipher without block overhead, or the
+  null cipher; any signature length up to 1024 bytes), for every chunk size
+  ≥ 8192 (unbounded below 2^32, the wire type) and every body size; `C38_rows_ok`
+  shows by evaluation that every row of the regenerated table satisfies it, and
+  the `C38_table_*` corollaries instantiate them for the table.
 -/
 namespace Opcua.Props.C38
 open Opcua
@@ -17,71 +23,83 @@ open Opcua
 /-- the body size the channel places in one chunk -/
 def maxBody (a : AlgoParams) (cs : Int) : Int := Gen.setMaximumBodySize a cs
 
-theorem rows_cases {a : AlgoParams} (h : a ∈ Gen.symmetricRows) :
-    a = Gen.symAes128_Sha256_RsaOaep ∨ a = Gen.symAes256_Sha256_RsaPss ∨ a = Gen.symBasic128Rsa15 ∨
-    a = Gen.symBasic256 ∨ a = Gen.symBasic256Sha256 ∨ a = Gen.symNone := by
-  simpa [Gen.symmetricRows] using h
+/-- side condition on a symmetric parameter row (decidable) -/
+def RowOk (a : AlgoParams) : Prop :=
+  (a.blockSize = 16 ∨ a.blockSize = 1) ∧ a.plaintextBlockSize = a.blockSize ∧
+  0 ≤ a.signatureLength ∧ a.signatureLength ≤ 1024 ∧ a.remoteSignatureLength ≤ 256
+
+instance (a : AlgoParams) : Decidable (RowOk a) := by unfold RowOk; infer_instance
+
+/-- every policy the code supports satisfies the side condition -/
+theorem C38_rows_ok : ∀ a ∈ Gen.symmetricRows, RowOk a := by decide
 
 /-- the maximal body is a sensible number: positive and below the chunk size
     (in particular the `uint32` conversion in the code never wraps) -/
-theorem C38_maxBody_range (a : AlgoParams) (ha : a ∈ Gen.symmetricRows) (cs : Int) (h : 8192 ≤ cs)
+theorem C38_maxBody_range (a : AlgoParams) (ha : RowOk a) (cs : Int) (h : 8192 ≤ cs)
     (hcs : cs < 4294967296) :
     0 < maxBody a cs ∧ maxBody a cs < cs := by
-  have h0 : (0:Int) ≤ cs - 12 - 4 := by omega
-  rcases rows_cases ha with rfl | rfl | rfl | rfl | rfl | rfl <;>
-    simp only [maxBody, Gen.setMaximumBodySize, Gen.symAes128_Sha256_RsaOaep, Gen.symAes256_Sha256_RsaPss,
-      Gen.symBasic128Rsa15, Gen.symBasic256, Gen.symBasic256Sha256, Gen.symNone] <;>
+  obtain ⟨hb, hp, hs0, hs1, hr⟩ := ha
+  have hr' : ¬ (a.remoteSignatureLength > 256) := by omega
+  rcases hb with hb | hb <;>
+    simp only [maxBody, Gen.setMaximumBodySize, hp, hb, hr', decide_false] <;>
     go_divmod <;> simp <;> omega
 
 /-- every body up to the maximum yields a secured chunk that fits, in every mode -/
-theorem C38_fits (a : AlgoParams) (ha : a ∈ Gen.symmetricRows) (m : Mode) (cs : Int) (h : 8192 ≤ cs)
+theorem C38_fits (a : AlgoParams) (ha : RowOk a) (m : Mode) (cs : Int) (h : 8192 ≤ cs)
     (hcs : cs < 4294967296) (n : Int) (hn0 : 0 ≤ n) (hn : n ≤ maxBody a cs) :
     (secureLen a m (rawLenOfBody n)).chunkLen ≤ cs := by
-  have h0 : (0:Int) ≤ cs - 12 - 4 := by omega
+  obtain ⟨hb, hp, hs0, hs1, hr⟩ := ha
+  have hr' : ¬ (a.remoteSignatureLength > 256) := by omega
   revert hn
-  rcases rows_cases ha with rfl | rfl | rfl | rfl | rfl | rfl <;>
-    simp only [maxBody, Gen.setMaximumBodySize, Gen.symAes128_Sha256_RsaOaep, Gen.symAes256_Sha256_RsaPss,
-      Gen.symBasic128Rsa15, Gen.symBasic256, Gen.symBasic256Sha256, Gen.symNone] <;>
+  rcases hb with hb | hb <;>
+    simp only [maxBody, Gen.setMaximumBodySize, hp, hb, hr', decide_false] <;>
     go_divmod <;>
-    cases m <;> simp [secureLen, rawLenOfBody, symHeaderLength] <;> intro hn <;>
-    go_divmod <;> omega
+    cases m <;> simp [secureLen, rawLenOfBody, symHeaderLength, hp, hb, hr'] <;> intro hn <;>
+    go_divmod <;> (try split) <;> go_divmod <;> omega
 
 /-- in SignAndEncrypt mode the plaintext handed to the cipher is a whole number
     of cipher blocks (so `AES.Encrypt` accepts it) — for every body size -/
-theorem C38_aligned (a : AlgoParams) (ha : a ∈ Gen.symmetricRows) (n : Int) (hn0 : 0 ≤ n) :
+theorem C38_aligned (a : AlgoParams) (ha : RowOk a) (n : Int) (hn0 : 0 ≤ n) :
     (secureLen a .signAndEncrypt (rawLenOfBody n)).encryptOk = true ∧
     Int.tmod (secureLen a .signAndEncrypt (rawLenOfBody n)).plainLen a.plaintextBlockSize = 0 := by
-  rcases rows_cases ha with rfl | rfl | rfl | rfl | rfl | rfl <;>
-    simp only [Gen.symAes128_Sha256_RsaOaep, Gen.symAes256_Sha256_RsaPss,
-      Gen.symBasic128Rsa15, Gen.symBasic256, Gen.symBasic256Sha256, Gen.symNone] <;>
-    simp [secureLen, rawLenOfBody, symHeaderLength] <;>
-    go_divmod <;>
-    (try split) <;>
-    go_divmod <;> omega
+  obtain ⟨hb, hp, hs0, hs1, hr⟩ := ha
+  have hr' : ¬ (a.remoteSignatureLength > 256) := by omega
+  rcases hb with hb | hb <;>
+    simp [secureLen, rawLenOfBody, symHeaderLength, hp, hb, hr'] <;>
+    go_divmod <;> (try split) <;> go_divmod <;> omega
 
 /-- the MessageSize field written into the chunk equals the chunk's length,
     in every mode and for every body size -/
-theorem C38_sizeField (a : AlgoParams) (ha : a ∈ Gen.symmetricRows) (m : Mode) (n : Int) (hn0 : 0 ≤ n) :
+theorem C38_sizeField (a : AlgoParams) (ha : RowOk a) (m : Mode) (n : Int) (hn0 : 0 ≤ n) :
     (secureLen a m (rawLenOfBody n)).sizeField = (secureLen a m (rawLenOfBody n)).chunkLen := by
-  rcases rows_cases ha with rfl | rfl | rfl | rfl | rfl | rfl <;>
-    simp only [Gen.symAes128_Sha256_RsaOaep, Gen.symAes256_Sha256_RsaPss,
-      Gen.symBasic128Rsa15, Gen.symBasic256, Gen.symBasic256Sha256, Gen.symNone] <;>
-    cases m <;> simp [secureLen, rawLenOfBody, symHeaderLength] <;>
-    go_divmod <;>
-    (try split) <;>
-    go_divmod <;> omega
+  obtain ⟨hb, hp, hs0, hs1, hr⟩ := ha
+  have hr' : ¬ (a.remoteSignatureLength > 256) := by omega
+  rcases hb with hb | hb <;>
+    cases m <;> simp [secureLen, rawLenOfBody, symHeaderLength, hp, hb, hr'] <;>
+    go_divmod <;> (try split) <;> go_divmod <;> omega
 
 /-- the bound is tight: in SignAndEncrypt mode one more body byte no longer fits -/
-theorem C38_tight (a : AlgoParams) (ha : a ∈ Gen.symmetricRows) (cs : Int) (h : 8192 ≤ cs)
+theorem C38_tight (a : AlgoParams) (ha : RowOk a) (cs : Int) (h : 8192 ≤ cs)
     (hcs : cs < 4294967296) :
     cs < (secureLen a .signAndEncrypt (rawLenOfBody (maxBody a cs + 1))).chunkLen := by
-  have h0 : (0:Int) ≤ cs - 12 - 4 := by omega
-  rcases rows_cases ha with rfl | rfl | rfl | rfl | rfl | rfl <;>
-    simp only [maxBody, Gen.setMaximumBodySize, Gen.symAes128_Sha256_RsaOaep, Gen.symAes256_Sha256_RsaPss,
-      Gen.symBasic128Rsa15, Gen.symBasic256, Gen.symBasic256Sha256, Gen.symNone] <;>
+  obtain ⟨hb, hp, hs0, hs1, hr⟩ := ha
+  have hr' : ¬ (a.remoteSignatureLength > 256) := by omega
+  rcases hb with hb | hb <;>
+    simp only [maxBody, Gen.setMaximumBodySize, hp, hb, hr', decide_false] <;>
     go_divmod <;>
-    simp [secureLen, rawLenOfBody, symHeaderLength] <;>
-    go_divmod <;> omega
+    simp [secureLen, rawLenOfBody, symHeaderLength, hp, hb, hr'] <;>
+    go_divmod <;> (try split) <;> go_divmod <;> omega
+
+/-- the property for the policies the code supports: all clauses at once -/
+theorem C38_table (a : AlgoParams) (ha : a ∈ Gen.symmetricRows) (m : Mode) (cs : Int)
+    (h : 8192 ≤ cs) (hcs : cs < 4294967296) (n : Int) (hn0 : 0 ≤ n) (hn : n ≤ maxBody a cs) :
+    (secureLen a m (rawLenOfBody n)).chunkLen ≤ cs ∧
+    (secureLen a m (rawLenOfBody n)).sizeField = (secureLen a m (rawLenOfBody n)).chunkLen ∧
+    (secureLen a .signAndEncrypt (rawLenOfBody n)).encryptOk = true ∧
+    cs < (secureLen a .signAndEncrypt (rawLenOfBody (maxBody a cs + 1))).chunkLen :=
+  have ok := C38_rows_ok a ha
+  ⟨C38_fits a ok m cs h hcs n hn0 hn, C38_sizeField a ok m n hn0, (C38_aligned a ok n hn0).1,
+   C38_tight a ok cs h hcs⟩
 
 /-- non-vacuity: the default chunk size 65535 with Basic256Sha256 -/
 example : maxBody Gen.symBasic256Sha256 65535 = 65463 ∧
